@@ -169,8 +169,8 @@ def filtEntryTarget (c : Ctx) : V → Option V
   | .struct fs => (filtFields c true fs).map .struct
   | .leaf l => (filterStr c (action mapTag) true l).map .leaf
   | .map es => (filtEntries c es).map .map
-  | .leaves ls => some (.leaves ls)
-  | .slice vs => some (.slice vs)
+  | .leaves ls => (filterStrs c mapTag ls).map .leaves      -- a pointer to a slice: as the slice itself
+  | .slice vs => (filtMapSlice c vs).map .slice
   | .nilPtr => some .nilPtr
   | .ptr v => some (.ptr v)
   | .iface v => some (.iface v)
